@@ -554,3 +554,359 @@ theorem run_n {fate : Item → Fate} {s s' : State} {tr : List Step} (h : Run fa
     exact ⟨ih.1.trans this.1, ih.2.trans this.2⟩
 
 end Grcov.Pipeline
+
+namespace Grcov.Pipeline
+
+/-- FIFO shape of the queue: no work item behind a stop marker -/
+def qShape : List (Option Item) → Bool
+  | [] => true
+  | some _ :: q => qShape q
+  | none :: q => q.all Option.isNone
+
+theorem qShape_of_all_none (q : List (Option Item)) (h : q.all Option.isNone = true) : qShape q = true := by
+  induction q with
+  | nil => rfl
+  | cons e q ih =>
+    simp only [List.all_cons, Bool.and_eq_true] at h
+    cases e with
+    | none => exact h.2
+    | some x => simp at h
+
+theorem qShape_append_none (q : List (Option Item)) (h : qShape q = true) : qShape (q ++ [none]) = true := by
+  induction q with
+  | nil => rfl
+  | cons e q ih =>
+    cases e with
+    | some x => simpa [qShape] using ih (by simpa [qShape] using h)
+    | none =>
+      simp only [qShape] at h
+      simp [qShape, List.all_append, h]
+
+theorem qShape_append_some (q : List (Option Item)) (x : Item) (h : nNones q = 0) :
+    qShape (q ++ [some x]) = true := by
+  induction q with
+  | nil => rfl
+  | cons e q ih =>
+    cases e with
+    | some y =>
+      have : nNones q = 0 := by simpa [nNones] using h
+      simpa [qShape] using ih this
+    | none => simp [nNones] at h
+
+theorem qShape_tail (e : Option Item) (q : List (Option Item)) (h : qShape (e :: q) = true) :
+    qShape q = true := by
+  cases e with
+  | some x => simpa [qShape] using h
+  | none => exact qShape_of_all_none q (by simpa [qShape] using h)
+
+theorem getD_set_ne (ws : List W) (w j : Nat) (v d : W) (h : w ≠ j) :
+    (ws.set w v).getD j d = ws.getD j d := by
+  simp [List.getD_eq_getElem?_getD, List.getElem?_set_ne h]
+
+theorem getD_set_eq (ws : List W) (w : Nat) (v d : W) (h : w < ws.length) :
+    (ws.set w v).getD w d = v := by
+  simp [List.getD_eq_getElem?_getD, List.getElem?_set_self h]
+
+structure FlowInv (fate : Item → Fate) (s : State) : Prop where
+  stop : StopInv s
+  shape : qShape s.queue = true
+  doneTodo : s.prodDone = true → s.todo = []
+  past : s.mainPc = .joinProd ∨ s.prodDone = true ∨ s.mainPc = .done 1
+  exitedNoSome : 0 < nExited s.workers → s.queue.all Option.isNone = true
+  joined : ∀ j, (match s.mainPc with
+      | .joinWorkers i => j < i
+      | .done 0 => j < s.n
+      | _ => False) → s.workers.getD j .idle = .exited
+  lostDead : s.lost ≠ [] → ∃ j, s.workers.getD j .idle = .dead
+  mergedOk : ∀ x ∈ s.merged, fate x = .ok
+  rejectedRej : ∀ x ∈ s.rejected, fate x = .reject
+
+theorem flowInv_init (fate : Item → Fate) (n : Nat) (rx : Bool) (items : List Item) :
+    FlowInv fate (init n rx items) := by
+  refine ⟨stopInv_init n rx items, rfl, by simp [init], Or.inl rfl, ?_, ?_, by simp [init], by simp [init], by simp [init]⟩
+  · intro h; simp [init, nExited, List.count_replicate] at h
+  · intro j hj; simp [init] at hj
+
+
+theorem nNones_zero_all_some (q : List (Option Item)) (h : nNones q = 0) (e) (he : e ∈ q) : e ≠ none := by
+  intro hn; subst hn
+  have : 0 < List.count none q := List.count_pos_iff.mpr he
+  simp [nNones] at h; omega
+
+/-- while the producer may still send, no stop marker was sent and no worker has exited -/
+theorem producing_phase (fate : Item → Fate) (s : State) (h : FlowInv fate s)
+    (ht : terminal s = false) (hp : s.prodDone = false) :
+    nNones s.queue = 0 ∧ nExited s.workers = 0 := by
+  have hpc : s.mainPc = .joinProd := by
+    rcases h.past with h1 | h1 | h1
+    · exact h1
+    · rw [hp] at h1; cases h1
+    · simp [terminal, h1] at ht
+  have := h.stop.2
+  rw [hpc] at this
+  simp only at this
+  omega
+
+theorem step_flowInv (fate : Item → Fate) (s : State) (st : Step) (he : enabled s st = true)
+    (h : FlowInv fate s) : FlowInv fate (step fate s st) := by
+  have hstop' := step_stopInv fate s st he h.stop
+  cases st with
+  | prodSend =>
+    simp only [enabled, Bool.and_eq_true, Bool.not_eq_true'] at he
+    obtain ⟨⟨⟨⟨ht, hpd⟩, hpx⟩, _⟩, _⟩ := he
+    obtain ⟨hn0, he0⟩ := producing_phase fate s h ht hpd
+    cases htodo : s.todo with
+    | nil =>
+      have : step fate s .prodSend = s := by simp [step, htodo]
+      rw [this]; exact h
+    | cons x rest =>
+      by_cases hr : receiversAlive s = true
+      · have e : step fate s .prodSend = { s with todo := rest, queue := s.queue ++ [some x] } := by
+          simp [step, htodo, hr]
+        rw [e] at hstop' ⊢
+        refine ⟨hstop', qShape_append_some _ _ hn0, ?_, h.past, ?_, h.joined, h.lostDead, h.mergedOk, h.rejectedRej⟩
+        · intro hd; simp only at hd; rw [hpd] at hd; cases hd
+        · intro hex; simp only at hex; omega
+      · have e : step fate s .prodSend = { s with prodDead := true } := by
+          simp [step, htodo, hr]
+        rw [e] at hstop' ⊢
+        exact ⟨hstop', h.shape, h.doneTodo, h.past, h.exitedNoSome, h.joined, h.lostDead, h.mergedOk, h.rejectedRej⟩
+  | prodExit =>
+    simp only [enabled, Bool.and_eq_true, Bool.not_eq_true'] at he
+    obtain ⟨⟨⟨_, _⟩, _⟩, hempty⟩ := he
+    have e : step fate s .prodExit = { s with prodDone := true } := rfl
+    rw [e] at hstop' ⊢
+    refine ⟨hstop', h.shape, ?_, ?_, h.exitedNoSome, h.joined, h.lostDead, h.mergedOk, h.rejectedRej⟩
+    · intro _; simpa using hempty
+    · exact Or.inr (Or.inl rfl)
+  | recv w =>
+    simp only [enabled, Bool.and_eq_true, beq_iff_eq] at he
+    have hidle := he.1.2
+    have hw : w < s.workers.length := getD_ne_default_lt (by rw [hidle]; decide)
+    have hidle' : s.workers.getD w .idle = .idle := by
+      simpa [List.getD_eq_getElem?_getD, List.getElem?_eq_getElem hw] using hidle
+    have keep : ∀ (v : W) (j : Nat) (u : W), u ≠ .idle → s.workers.getD j .idle = u →
+        (s.workers.set w v).getD j .idle = u := by
+      intro v j u hu hj
+      by_cases hwj : w = j
+      · subst hwj; rw [hidle'] at hj; exact absurd hj.symm hu
+      · rw [getD_set_ne _ _ _ _ _ hwj]; exact hj
+    cases hq : s.queue with
+    | nil => simp [hq] at he
+    | cons e q =>
+      cases e with
+      | some y =>
+        have e1 : step fate s (.recv w) = { s with queue := q, workers := s.workers.set w (.holding y) } := by
+          simp [step, hq]
+        rw [e1] at hstop' ⊢
+        have hc := count_set_W s.workers w (.holding y) .exited hw
+        rw [hidle] at hc
+        simp only [reduceCtorEq, if_false, Nat.add_zero] at hc
+        refine ⟨hstop', qShape_tail _ _ (hq ▸ h.shape), h.doneTodo, h.past, ?_, ?_, ?_, h.mergedOk, h.rejectedRej⟩
+        · intro hex
+          simp only [nExited, hc] at hex
+          have := h.exitedNoSome hex
+          rw [hq] at this; simp at this
+        · intro j hj; exact keep _ j .exited (by decide) (h.joined j hj)
+        · intro hl; obtain ⟨j, hj⟩ := h.lostDead hl; exact ⟨j, keep _ j .dead (by decide) hj⟩
+      | none =>
+        have e1 : step fate s (.recv w) = { s with queue := q, workers := s.workers.set w .exited } := by
+          simp [step, hq]
+        rw [e1] at hstop' ⊢
+        refine ⟨hstop', qShape_tail _ _ (hq ▸ h.shape), h.doneTodo, h.past, ?_, ?_, ?_, h.mergedOk, h.rejectedRej⟩
+        · intro _
+          have := h.shape; rw [hq] at this; simpa [qShape] using this
+        · intro j hj
+          by_cases hwj : w = j
+          · subst hwj; exact getD_set_eq _ _ _ _ hw
+          · rw [getD_set_ne _ _ _ _ _ hwj]; exact h.joined j hj
+        · intro hl; obtain ⟨j, hj⟩ := h.lostDead hl; exact ⟨j, keep _ j .dead (by decide) hj⟩
+  | finish w =>
+    cases hh : s.workers.getD w .exited with
+    | holding y =>
+      have hw : w < s.workers.length := getD_ne_default_lt (by rw [hh]; intro e; cases e)
+      have hh' : s.workers.getD w .idle = .holding y := by
+        simpa [List.getD_eq_getElem?_getD, List.getElem?_eq_getElem hw] using hh
+      have hh2 : s.workers[w]?.getD W.exited = W.holding y := by
+        rw [← List.getD_eq_getElem?_getD]; exact hh
+      have keep : ∀ (v : W) (j : Nat) (u : W), (∀ z, u ≠ .holding z) → s.workers.getD j .idle = u →
+          (s.workers.set w v).getD j .idle = u := by
+        intro v j u hu hj
+        by_cases hwj : w = j
+        · subst hwj; rw [hh'] at hj; exact absurd hj.symm (hu y)
+        · rw [getD_set_ne _ _ _ _ _ hwj]; exact hj
+      have cnt : ∀ v : W, v ≠ .exited → nExited (s.workers.set w v) = nExited s.workers := by
+        intro v hv
+        have hc := count_set_W s.workers w v .exited hw
+        rw [hh] at hc
+        simp only [reduceCtorEq, if_false, hv, Nat.add_zero] at hc
+        exact hc
+      cases hf : fate y with
+      | ok =>
+        have e1 : step fate s (.finish w) = { s with workers := s.workers.set w .idle, merged := s.merged ++ [y] } := by
+          simp [step, hh2, hf]
+        rw [e1] at hstop' ⊢
+        refine ⟨hstop', h.shape, h.doneTodo, h.past, ?_, ?_, ?_, ?_, h.rejectedRej⟩
+        · intro hex; simp only [cnt .idle (by decide)] at hex; exact h.exitedNoSome hex
+        · intro j hj; exact keep _ j .exited (fun z => by intro e; cases e) (h.joined j hj)
+        · intro hl; obtain ⟨j, hj⟩ := h.lostDead hl; exact ⟨j, keep _ j .dead (fun z => by intro e; cases e) hj⟩
+        · intro x hx; simp only [List.mem_append, List.mem_singleton] at hx
+          rcases hx with hx | hx
+          · exact h.mergedOk x hx
+          · subst hx; exact hf
+      | reject =>
+        have e1 : step fate s (.finish w) = { s with workers := s.workers.set w .idle, rejected := s.rejected ++ [y] } := by
+          simp [step, hh2, hf]
+        rw [e1] at hstop' ⊢
+        refine ⟨hstop', h.shape, h.doneTodo, h.past, ?_, ?_, ?_, h.mergedOk, ?_⟩
+        · intro hex; simp only [cnt .idle (by decide)] at hex; exact h.exitedNoSome hex
+        · intro j hj; exact keep _ j .exited (fun z => by intro e; cases e) (h.joined j hj)
+        · intro hl; obtain ⟨j, hj⟩ := h.lostDead hl; exact ⟨j, keep _ j .dead (fun z => by intro e; cases e) hj⟩
+        · intro x hx; simp only [List.mem_append, List.mem_singleton] at hx
+          rcases hx with hx | hx
+          · exact h.rejectedRej x hx
+          · subst hx; exact hf
+      | die =>
+        have e1 : step fate s (.finish w) = { s with workers := s.workers.set w .dead, lost := s.lost ++ [y] } := by
+          simp [step, hh2, hf]
+        rw [e1] at hstop' ⊢
+        refine ⟨hstop', h.shape, h.doneTodo, h.past, ?_, ?_, ?_, h.mergedOk, h.rejectedRej⟩
+        · intro hex; simp only [cnt .dead (by decide)] at hex; exact h.exitedNoSome hex
+        · intro j hj; exact keep _ j .exited (fun z => by intro e; cases e) (h.joined j hj)
+        · intro _; exact ⟨w, getD_set_eq _ _ _ _ hw⟩
+    | idle => simp only [enabled, hh] at he; simp at he
+    | exited => simp only [enabled, hh] at he; simp at he
+    | dead => simp only [enabled, hh] at he; simp at he
+  | main =>
+    cases hpc : s.mainPc with
+    | joinProd =>
+      simp only [enabled, hpc, Bool.or_eq_true] at he
+      by_cases hpx : s.prodDead = true
+      · have e1 : step fate s .main = { s with mainPc := .done 1 } := by simp [step, hpc, hpx]
+        rw [e1] at hstop' ⊢
+        refine ⟨hstop', h.shape, h.doneTodo, Or.inr (Or.inr rfl), h.exitedNoSome, ?_, h.lostDead, h.mergedOk, h.rejectedRej⟩
+        intro j hj; simp at hj
+      · have hpd : s.prodDone = true := by rcases he with he | he; exact he; exact absurd he hpx
+        have e1 : step fate s .main = { s with mainPc := .stops 0 } := by simp [step, hpc, hpx]
+        rw [e1] at hstop' ⊢
+        refine ⟨hstop', h.shape, h.doneTodo, Or.inr (Or.inl hpd), h.exitedNoSome, ?_, h.lostDead, h.mergedOk, h.rejectedRej⟩
+        intro j hj; simp at hj
+    | stops k =>
+      have hpast : s.prodDone = true ∨ s.mainPc = .done 1 := by
+        rcases h.past with h1 | h1
+        · rw [hpc] at h1; cases h1
+        · exact h1
+      have hpast' : ∀ pc, pc = MainPc.joinProd ∨ s.prodDone = true ∨ pc = .done 1 := by
+        intro pc; rcases hpast with h1 | h1
+        · exact Or.inr (Or.inl h1)
+        · rw [hpc] at h1; cases h1
+      by_cases hk : k ≥ s.n
+      · have e1 : step fate s .main = { s with mainPc := .joinWorkers 0 } := by simp [step, hpc, hk]
+        rw [e1] at hstop' ⊢
+        refine ⟨hstop', h.shape, h.doneTodo, hpast' _, h.exitedNoSome, ?_, h.lostDead, h.mergedOk, h.rejectedRej⟩
+        intro j hj; simp at hj
+      · by_cases hr : receiversAlive s = true
+        · have e1 : step fate s .main = { s with mainPc := .stops (k + 1), queue := s.queue ++ [none] } := by
+            simp [step, hpc, hk, hr]
+          rw [e1] at hstop' ⊢
+          refine ⟨hstop', qShape_append_none _ h.shape, h.doneTodo, hpast' _, ?_, ?_, h.lostDead, h.mergedOk, h.rejectedRej⟩
+          · intro hex; simp only [List.all_append, h.exitedNoSome hex]; rfl
+          · intro j hj; simp at hj
+        · have e1 : step fate s .main = { s with mainPc := .joinWorkers 0 } := by simp [step, hpc, hk, hr]
+          rw [e1] at hstop' ⊢
+          refine ⟨hstop', h.shape, h.doneTodo, hpast' _, h.exitedNoSome, ?_, h.lostDead, h.mergedOk, h.rejectedRej⟩
+          intro j hj; simp at hj
+    | joinWorkers i =>
+      have hpast' : ∀ pc, pc = MainPc.joinProd ∨ s.prodDone = true ∨ pc = .done 1 := by
+        intro pc; rcases h.past with h1 | h1 | h1
+        · rw [hpc] at h1; cases h1
+        · exact Or.inr (Or.inl h1)
+        · rw [hpc] at h1; cases h1
+      have hj0 : ∀ j, j < i → s.workers.getD j .idle = .exited := by
+        intro j hj; have := h.joined j; rw [hpc] at this; exact this hj
+      by_cases hi : i ≥ s.n
+      · have e1 : step fate s .main = { s with mainPc := .done 0 } := by simp [step, hpc, hi]
+        rw [e1] at hstop' ⊢
+        refine ⟨hstop', h.shape, h.doneTodo, hpast' _, h.exitedNoSome, ?_, h.lostDead, h.mergedOk, h.rejectedRej⟩
+        intro j hj; simp only at hj; exact hj0 j (by omega)
+      · simp only [enabled, hpc, Bool.or_eq_true, decide_eq_true_eq] at he
+        have hna : (s.workers.getD i .exited).alive = false := by
+          rcases he with he | he
+          · exact absurd he hi
+          · simpa using he
+        have hil : i < s.workers.length := by rw [h.stop.1]; omega
+        cases hwi : s.workers.getD i .exited with
+        | dead =>
+          have hwi2 : s.workers[i]?.getD W.exited = W.dead := by
+            rw [← List.getD_eq_getElem?_getD]; exact hwi
+          have e1 : step fate s .main = { s with mainPc := .done 1 } := by simp [step, hpc, hi, hwi2]
+          rw [e1] at hstop' ⊢
+          refine ⟨hstop', h.shape, h.doneTodo, Or.inr (Or.inr rfl), h.exitedNoSome, ?_, h.lostDead, h.mergedOk, h.rejectedRej⟩
+          intro j hj; simp at hj
+        | exited =>
+          have hwi2 : s.workers[i]?.getD W.exited = W.exited := by
+            rw [← List.getD_eq_getElem?_getD]; exact hwi
+          have e1 : step fate s .main = { s with mainPc := .joinWorkers (i + 1) } := by simp [step, hpc, hi, hwi2]
+          rw [e1] at hstop' ⊢
+          refine ⟨hstop', h.shape, h.doneTodo, hpast' _, h.exitedNoSome, ?_, h.lostDead, h.mergedOk, h.rejectedRej⟩
+          intro j hj; simp only at hj
+          by_cases hji : j = i
+          · subst hji
+            simpa [List.getD_eq_getElem?_getD, List.getElem?_eq_getElem hil] using hwi
+          · exact hj0 j (by omega)
+        | idle => rw [hwi] at hna; simp [W.alive] at hna
+        | holding y => rw [hwi] at hna; simp [W.alive] at hna
+    | done c => simp [enabled, hpc] at he
+
+
+theorem run_flowInv {fate : Item → Fate} {s s' : State} {tr : List Step} (h : Run fate s tr s')
+    (hi : FlowInv fate s) : FlowInv fate s' := by
+  induction h with
+  | nil => exact hi
+  | cons he _ ih => exact ih (step_flowInv fate _ _ he hi)
+
+theorem held_all_exited (ws : List W) (h : ∀ w ∈ ws, w = W.exited) : held ws = [] := by
+  induction ws with
+  | nil => rfl
+  | cons a ws ih =>
+    have ha := h a (by simp)
+    subst ha
+    simpa [held] using ih fun w hw => h w (List.mem_cons_of_mem _ hw)
+
+/-- at `done 0` everything that was an input has been merged or rejected -/
+theorem done0_all_accounted (fate : Item → Fate) (s : State) (h : FlowInv fate s) (hn : 1 ≤ s.n)
+    (hd : s.mainPc = .done 0) :
+    s.todo = [] ∧ queueItems s = [] ∧ held s.workers = [] ∧ s.lost = [] := by
+  have hlen := h.stop.1
+  have hall : ∀ w ∈ s.workers, w = W.exited := by
+    intro w hw
+    obtain ⟨j, hj, rfl⟩ := List.getElem_of_mem hw
+    have := h.joined j (by rw [hd]; simp only; omega)
+    simpa [List.getD_eq_getElem?_getD, List.getElem?_eq_getElem hj] using this
+  have hex : 0 < nExited s.workers := by
+    have : List.count W.exited s.workers = s.workers.length := List.count_eq_length.mpr fun w hw => (hall w hw).symm
+    simp only [nExited, this, hlen]; omega
+  have hq := h.exitedNoSome hex
+  have hpd : s.prodDone = true := by
+    rcases h.past with h1 | h1 | h1
+    · rw [hd] at h1; cases h1
+    · exact h1
+    · rw [hd] at h1; cases h1
+  refine ⟨h.doneTodo hpd, ?_, held_all_exited _ hall, ?_⟩
+  · simp only [queueItems]
+    rw [List.filterMap_eq_nil_iff]
+    intro e he
+    have := (List.all_eq_true.mp hq) e he
+    cases e <;> simp_all
+  · by_cases hl : s.lost = []
+    · exact hl
+    · obtain ⟨j, hj⟩ := h.lostDead hl
+      by_cases hjl : j < s.workers.length
+      · have := hall _ (List.getElem_mem hjl)
+        rw [List.getD_eq_getElem?_getD, List.getElem?_eq_getElem hjl] at hj
+        simp only [Option.getD_some] at hj
+        rw [this] at hj; cases hj
+      · rw [List.getD_eq_getElem?_getD, List.getElem?_eq_none (Nat.le_of_not_lt hjl)] at hj
+        simp at hj
+
+end Grcov.Pipeline
